@@ -858,6 +858,8 @@ func runLarge(c LargeCase, o *vh.Obs) *vh.Failure {
 func TestC07(t *testing.T) {
 	vh.Drive(t, vh.Spec[MeshCase]{Name: "mesh-roundtrip", Quick: 500000, Thorough: 15000000, Gen: genMesh, Run: runMesh})
 	vh.Drive(t, vh.Spec[BytesCase]{Name: "bytes-roundtrip", Quick: 700000, Thorough: 21000000, Gen: genBytes, Run: runBytes})
+	vh.Drive(t, vh.Spec[vh.Conc[MeshCase]]{Name: "concurrent-mesh-roundtrip", Quick: 4000, Thorough: 120000, Gen: vh.GenConc(genMesh), Run: vh.RunConc(runMesh), Repeat: 20})
+	vh.Drive(t, vh.Spec[vh.Conc[BytesCase]]{Name: "concurrent-bytes-roundtrip", Quick: 4000, Thorough: 120000, Gen: vh.GenConc(genBytes), Run: vh.RunConc(runBytes), Repeat: 20})
 	vh.Drive(t, vh.Spec[LargeCase]{Name: "large", Quick: 240, Thorough: 8000, Gen: genLarge, Run: runLarge})
 }
 
